@@ -444,28 +444,29 @@ theorem file_name_formats_table :
 open ShellOp.HookRun.Text in
 /-- The outputs of an execution whose hook wrote these texts into the four files (none deleted):
 `bv` = `ValidateOperations` accepts the metric operations, `sem` = what the schema and the cluster make
-of a well-formed patch. -/
-def outOfTexts (exit : Nat) (bv : Bool) (sem : Patch) (mt at' ct pt : List Char) : Outputs :=
+of a well-formed JSON patch, `yaml` = what the YAML reader makes of a patch text that is not JSON. -/
+def outOfTexts (exit : Nat) (bv : Bool) (sem yaml : Patch) (mt at' ct pt : List Char) : Outputs :=
   ⟨exit, Text.metricsOfText false bv mt, Text.respOfText Text.admissionOk false at',
-    Text.respOfText Text.conversionOk false ct, Text.patchOfText false sem pt⟩
+    Text.respOfText Text.conversionOk false ct, Text.patchOfText false sem yaml pt⟩
 
 /-- **C12.1 on the file text: "a malformed output fails the execution".** After a zero exit, if the
 text of the metrics file or of the patch file is not a sequence of JSON values of the right type up to
-the end of the file, or the text of the admission / conversion response file is not exactly one such
-value (`Stream` / `Whole`: the grammar, not the loop), the execution fails and nothing is applied — no
+the end of the file (for the patch file: and the YAML reader rejects it too — the file may be YAML), or
+the text of the admission / conversion response file is not exactly one such value (`Stream` /
+`Whole`: the grammar, not the loop), the execution fails and nothing is applied — no
 patch, no metric, no response. Covers truncated texts, stray closing brackets at a record boundary,
 trailing garbage, a second document, wrong types: everything outside the grammar. -/
 theorem malformed_text_fails (keep : Bool) (names : Names) (oks : List Bool) (dir : List Name)
-    (hok : ∀ b ∈ oks, b = true) (bv : Bool) (sem : Patch) (mt at' ct pt : List Char)
+    (hok : ∀ b ∈ oks, b = true) (bv : Bool) (sem yaml : Patch) (mt at' ct pt : List Char)
     (h : (mt ≠ [] ∧ ¬ ∃ vs, Text.Stream (Text.next (Text.typed Text.metricTable)) mt vs) ∨
          (at' ≠ [] ∧ ¬ ∃ v, Text.Whole (Text.next Text.admissionOk) Text.atEnd at' v) ∨
          (ct ≠ [] ∧ ¬ ∃ v, Text.Whole (Text.next Text.conversionOk) Text.atEnd ct v) ∨
-         (pt ≠ [] ∧ ¬ ∃ vs, Text.Stream (Text.next Text.isObj) pt vs)) :
-    let r := handle (run keep names oks (outOfTexts 0 bv sem mt at' ct pt) dir)
+         (pt ≠ [] ∧ yaml = .parseErr ∧ ¬ ∃ vs, Text.Stream (Text.next Text.isObj) pt vs)) :
+    let r := handle (run keep names oks (outOfTexts 0 bv sem yaml mt at' ct pt) dir)
     r.failed = true ∧ r.patchExecuted = false ∧ r.metricsSent = false ∧ r.admissionProp = false ∧
       r.conversionProp = false := by
-  have hmal : Spec.malformed (outOfTexts 0 bv sem mt at' ct pt) = true := by
-    rcases h with ⟨hne, hbad⟩ | ⟨hne, hbad⟩ | ⟨hne, hbad⟩ | ⟨hne, hbad⟩
+  have hmal : Spec.malformed (outOfTexts 0 bv sem yaml mt at' ct pt) = true := by
+    rcases h with ⟨hne, hbad⟩ | ⟨hne, hbad⟩ | ⟨hne, hbad⟩ | ⟨hne, hy, hbad⟩
     · have : Text.metricsOfText false bv mt = .err := by
         have he : mt.isEmpty = false := by cases mt <;> simp_all
         simp [Text.metricsOfText, he, (Text.streamOk_none_iff _ mt).mpr hbad]
@@ -478,11 +479,11 @@ theorem malformed_text_fails (keep : Bool) (names : Names) (oks : List Bool) (di
         have he : ct.isEmpty = false := by cases ct <;> simp_all
         simp [Text.respOfText, he, (Text.wholeOk_none_iff _ ct).mpr hbad]
       simp [Spec.malformed, outOfTexts, this]
-    · have : Text.patchOfText false sem pt = .parseErr := by
+    · have : Text.patchOfText false sem yaml pt = .parseErr := by
         have he : pt.isEmpty = false := by cases pt <;> simp_all
-        simp [Text.patchOfText, he, (Text.streamOk_none_iff _ pt).mpr hbad]
+        simp [Text.patchOfText, he, (Text.streamOk_none_iff _ pt).mpr hbad, hy]
       simp [Spec.malformed, outOfTexts, this]
-  have ho := handle_outcome keep names oks (outOfTexts 0 bv sem mt at' ct pt) dir hok
+  have ho := handle_outcome keep names oks (outOfTexts 0 bv sem yaml mt at' ct pt) dir hok
   simp only at ho
   obtain ⟨h1, h2, h3, h4, h5⟩ := ho
   simp only [h1, h2, h3, h4, h5]
@@ -490,13 +491,13 @@ theorem malformed_text_fails (keep : Bool) (names : Names) (oks : List Bool) (di
 
 /-- … and only those: when every file is empty or inside the grammar, no output is malformed (the
 execution can then fail only for a semantic reason: rejected batch, failing or invalid patch). -/
-theorem wellformed_text_not_malformed (bv : Bool) (sem : Patch) (hsem : sem ≠ .unreadable ∧ sem ≠ .parseErr)
+theorem wellformed_text_not_malformed (bv : Bool) (sem yaml : Patch) (hsem : sem ≠ .unreadable ∧ sem ≠ .parseErr)
     (mt at' ct pt : List Char)
     (hm : mt = [] ∨ ∃ vs, Text.Stream (Text.next (Text.typed Text.metricTable)) mt vs)
     (ha : at' = [] ∨ ∃ v, Text.Whole (Text.next Text.admissionOk) Text.atEnd at' v)
     (hc : ct = [] ∨ ∃ v, Text.Whole (Text.next Text.conversionOk) Text.atEnd ct v)
     (hp : pt = [] ∨ ∃ vs, Text.Stream (Text.next Text.isObj) pt vs) :
-    Spec.malformed (outOfTexts 0 bv sem mt at' ct pt) = false := by
+    Spec.malformed (outOfTexts 0 bv sem yaml mt at' ct pt) = false := by
   have e1 : Text.metricsOfText false bv mt ≠ .err := by
     rcases hm with rfl | ⟨vs, hs⟩
     · simp [Text.metricsOfText]
@@ -518,7 +519,7 @@ theorem wellformed_text_not_malformed (bv : Bool) (sem : Patch) (hsem : sem ≠ 
       unfold Text.respOfText
       rw [this]
       simp; split <;> simp
-  have e4 : Text.patchOfText false sem pt ≠ .unreadable ∧ Text.patchOfText false sem pt ≠ .parseErr := by
+  have e4 : Text.patchOfText false sem yaml pt ≠ .unreadable ∧ Text.patchOfText false sem yaml pt ≠ .parseErr := by
     rcases hp with rfl | ⟨vs, hs⟩
     · simp [Text.patchOfText]
     · have := (Text.streamOk_some_iff _ pt vs).mpr hs
